@@ -5,6 +5,9 @@ use crate::ctx::Ctx;
 use crate::files::{self, LoadCase, Seed, ALL_EXTS};
 
 /// offsets from which the NUL bytes of a seed are replaced (the prefix before it - magic numbers, indicators - stays)
+/// replacement values for decimal numbers found in seed files
+const TEXT_NUMBERS: [&str; 14] = ["0", "1", "255", "256", "65535", "65536", "16777216", "2147483647", "2147483648", "4294967295", "4294967296", "1152921504606846976", "18446744073709551615", "99999999999999999999999999"];
+
 const NULFREE_FROM: [usize; 7] = [0, 8, 16, 24, 32, 48, 64];
 
 /// text formats and the emulation whose grammar their loader parses
@@ -38,6 +41,9 @@ pub struct C02 {
     n_grammar: u64,
     n_nulfree: u64,
     flip_offsets: Vec<Vec<usize>>,
+    /// (seed, start, end) of decimal digit runs in the seed files (text-number class)
+    num_runs: Vec<(usize, usize, usize)>,
+    n_textnum: u64,
 }
 
 const FLIP_VALUES: [i16; 7] = [0, 1, 0x7F, 0x80, 0xFF, -1, -2]; // -1 => +1, -2 => -1 (relative)
@@ -188,6 +194,26 @@ impl C02 {
                     origin: format!("{} NUL-free from {from}, {what}", s.name),
                 },
                 "nul-free",
+            );
+        }
+        let k6 = k5 - self.n_nulfree;
+        if k6 < self.n_textnum {
+            // every decimal number written in a seed (colour counts and components of the palette formats, CSI parameters,
+            // PCBoard / Renegade codes) replaced by an extreme: counts that drive reserve / resize / loops
+            let (si, a, b) = self.num_runs[(k6 / TEXT_NUMBERS.len() as u64) as usize];
+            let v = TEXT_NUMBERS[(k6 % TEXT_NUMBERS.len() as u64) as usize];
+            let s = &self.seeds[si];
+            let mut bytes = s.bytes[..a].to_vec();
+            bytes.extend_from_slice(v.as_bytes());
+            bytes.extend_from_slice(&s.bytes[b..]);
+            return (
+                LoadCase {
+                    api: s.api.clone(),
+                    ext: s.ext.clone(),
+                    bytes,
+                    origin: format!("{} number@{a}..{b} := {v}", s.name),
+                },
+                "text-number",
             );
         }
         // random
@@ -343,7 +369,7 @@ impl Prop for C02 {
         "C02"
     }
     fn rule(&self) -> &'static str {
-        "seed corpus = output of every engine writer (14 formats, with/without SAUCE and comments, compressed/raw) on 6 generated documents incl. multi-layer/custom-font/large-palette IcyDraw, a feature ANSI file, PSF1/PSF2/raw fonts, the shipped TDF font, 5 palette formats, a bare SAUCE record. cases: (truncation) every prefix length of every seed (dense for small files and in header/tail regions, strided beyond); (byte-corruption) every byte of the first 160 and last 140 bytes x {0,1,0x7F,0x80,0xFF,+1,-1}; (cross-extension) every seed under 27 extensions incl. unknown and upper-case; (grammar) token streams in the grammar of the format's own emulation (ANSI incl. modes/margins/macros, Avatar, PCBoard, Ctrl-A, Renegade, PETSCII, ATASCII, ASCII) loaded as files, with and without state prefix and SAUCE tail; (nul-free) every seed with all 0x00 bytes after offset 0/8/16/24/32/48/64 replaced by 0xFF, combined with each of the next 40 bytes set to 0xFF/0xD1/0x80 or one of 16 cuts (terminator scans that run off the end); (random) SAUCE tails from field extremes, structure-aware IcyDraw chunk mutation (decode zTXt, mutate payload, re-encode with valid CRC), LE field extremes, splices, inserts, deletes, repeats, pure random. Each case is one call of Buffer::from_bytes / SauceData::extract / BitFont::from_bytes / TheDrawFont::from_tdf_bytes / Palette::load_palette|import_palette under catch_unwind. distinct_nontrivial = distinct (api, extension, class, result, size, layers) fingerprints"
+        "seed corpus = output of every engine writer (14 formats, with/without SAUCE and comments, compressed/raw) on 10 generated documents incl. ice-mode 80-column pictures (ADF/IDF), an ATASCII buffer, multi-layer/custom-font/large-palette IcyDraw, a hand-made PETSCII file, a feature ANSI file, PSF1/PSF2/raw fonts, the shipped TDF font, 5 palette formats, a bare SAUCE record. cases: (truncation) every prefix length of every seed (dense for small files and in header/tail regions, strided beyond); (byte-corruption) every byte of the first 160 and last 140 bytes x {0,1,0x7F,0x80,0xFF,+1,-1}; (cross-extension) every seed under 27 extensions incl. unknown and upper-case; (grammar) token streams in the grammar of the format's own emulation (ANSI incl. modes/margins/macros, Avatar, PCBoard, Ctrl-A, Renegade, PETSCII, ATASCII, ASCII) loaded as files, with and without state prefix and SAUCE tail; (nul-free) every seed with all 0x00 bytes after offset 0/8/16/24/32/48/64 replaced by 0xFF, combined with each of the next 40 bytes set to 0xFF/0xD1/0x80 or one of 16 cuts (terminator scans that run off the end); (text-number) every decimal number written in a seed (up to 150 per seed: palette counts and components, CSI parameters, @X / | codes) replaced by each of 14 extremes from 0 to 2^64-1 and a 26-digit value; (random) SAUCE tails from field extremes, structure-aware IcyDraw chunk mutation (decode zTXt, mutate payload, re-encode with valid CRC), LE field extremes, splices, inserts, deletes, repeats, pure random. Each case is one call of Buffer::from_bytes / SauceData::extract / BitFont::from_bytes / TheDrawFont::from_tdf_bytes / Palette::load_palette|import_palette under catch_unwind. distinct_nontrivial = distinct (api, extension, class, result, size, layers) fingerprints"
     }
     fn meta(&self, _ctx: &Ctx) -> Value {
         json!({"floor_evaluations": 20000, "floor_distinct": 300, "plain_pass": "quick",
@@ -374,12 +400,36 @@ impl Prop for C02 {
         self.n_cross = (self.seeds.len() * ALL_EXTS.len()) as u64;
         self.n_grammar = ctx.tier.pick(40_000, 1_000_000);
         self.n_nulfree = self.seeds.len() as u64 * NULFREE_FROM.len() as u64 * (40 * 3 + 16);
+        self.num_runs.clear();
+        for (si, s) in self.seeds.iter().enumerate() {
+            let mut runs = Vec::new();
+            let mut i = 0;
+            while i < s.bytes.len() {
+                if s.bytes[i].is_ascii_digit() {
+                    let a = i;
+                    while i < s.bytes.len() && s.bytes[i].is_ascii_digit() {
+                        i += 1;
+                    }
+                    runs.push((si, a, i));
+                } else {
+                    i += 1;
+                }
+            }
+            // at most 150 runs per seed, spread evenly (the first 30 always: header lines)
+            let n = runs.len();
+            for (j, r) in runs.into_iter().enumerate() {
+                if j < 30 || n <= 150 || j % (n / 120 + 1) == 0 {
+                    self.num_runs.push(r);
+                }
+            }
+        }
+        self.n_textnum = self.num_runs.len() as u64 * TEXT_NUMBERS.len() as u64;
         if std::env::var_os("VERIF_C02_SEEDS").is_some() {
             for s in &self.seeds {
                 eprintln!("seed {} api={} ext={} len={}", s.name, s.api, s.ext, s.bytes.len());
             }
         }
-        self.n_trunc + self.n_flip + self.n_cross + self.n_grammar + self.n_nulfree + ctx.tier.pick(60_000, 3_000_000)
+        self.n_trunc + self.n_flip + self.n_cross + self.n_grammar + self.n_nulfree + self.n_textnum + ctx.tier.pick(60_000, 3_000_000)
     }
     fn run_case(&mut self, ctx: &mut Ctx, k: u64) {
         let (case, class) = self.case_for(ctx, k);
